@@ -24,6 +24,7 @@ import (
 	"time"
 
 	"github.com/prometheus/client_golang/prometheus"
+	"github.com/prometheus/client_golang/prometheus/collectors"
 	"github.com/prometheus/client_golang/prometheus/promhttp"
 	_ "github.com/prometheus/client_golang/prometheus/promhttp/zstd"
 	"github.com/prometheus/client_golang/prometheus/testutil"
@@ -256,9 +257,14 @@ func runChild(c *cli.Ctx) error {
 					for k := 0; k < 40; k++ {
 						descs = append(descs, prometheus.NewDesc(fmt.Sprintf("big_%d_%d_%d", round, g, k), "h", nil, nil))
 					}
+					if (round+g)%2 == 1 {
+						// ... or because its first descriptor is invalid: the other rejection path must not leave the
+						// Describe goroutine behind either (the leak check at the end of the program sees it)
+						descs[0] = prometheus.NewDesc("0 bad\xff name", "h", nil, nil)
+					}
 					if err := reg.Register(&manyDescCollector{descs: descs}); err == nil {
 						atomic.AddInt64(&panics, 1)
-						panicMsg.Store("conflicting collector was accepted")
+						panicMsg.Store("conflicting / invalid collector was accepted")
 					}
 				}()
 			}
@@ -404,6 +410,51 @@ func runChild(c *cli.Ctx) error {
 			if got := testutil.ToFloat64(fv.WithLabelValues("x")); got != 0.125*n {
 				raceViolations++
 				panicMsg.Store(fmt.Sprintf("%d goroutines x %d x vec child Add(0.125): child shows %v, want exactly %v", nG, per, got, 0.125*n))
+			}
+		}
+		// overlapping collections of one Go runtime collector: every gathered snapshot is self-consistent
+		// (frees are derived as mallocs - heap objects from ONE read of the runtime metrics)
+		if p < 6 {
+			greg := prometheus.NewRegistry()
+			greg.MustRegister(collectors.NewGoCollector())
+			var wgG sync.WaitGroup
+			var torn int64
+			var tornMsg atomic.Value
+			for g := 0; g < 4; g++ {
+				wgG.Add(1)
+				go func() {
+					defer wgG.Done()
+					for i := 0; i < 60; i++ {
+						mfs, err := greg.Gather()
+						if err != nil {
+							atomic.AddInt64(&torn, 1)
+							tornMsg.Store("Gather of the Go collector failed: " + err.Error())
+							return
+						}
+						var mallocs, frees, objs float64
+						seen := 0
+						for _, mf := range mfs {
+							switch mf.GetName() {
+							case "go_memstats_mallocs_total":
+								mallocs, seen = mf.Metric[0].Counter.GetValue(), seen+1
+							case "go_memstats_frees_total":
+								frees, seen = mf.Metric[0].Counter.GetValue(), seen+1
+							case "go_memstats_heap_objects":
+								objs, seen = mf.Metric[0].Gauge.GetValue(), seen+1
+							}
+						}
+						if seen == 3 && mallocs-frees != objs {
+							atomic.AddInt64(&torn, 1)
+							tornMsg.Store(fmt.Sprintf("one Gather returned a torn Go-collector snapshot: mallocs %v - frees %v != heap objects %v", mallocs, frees, objs))
+						}
+					}
+				}()
+			}
+			wgG.Wait()
+			atomic.AddInt64(&totalOps, 240)
+			if torn > 0 {
+				raceViolations++
+				panicMsg.Store(tornMsg.Load())
 			}
 		}
 		// overlapping WriteToTextfile calls for the same target: every call succeeds and the file is a whole exposition
